@@ -108,6 +108,7 @@ type vnode struct {
 }
 
 func newVNode(t *testing.T) *vnode {
+	relaxStoreLocks()
 	n := &vnode{se: &faultEngine{Engine: storage.NewTestStorageEngine(t), kvs: map[string]*fault.AnswerKV{}}}
 	ds := didstore.TestStore(t, n.se)
 	n.dids = ds
